@@ -4,6 +4,7 @@ import (
 	"fmt"
 	"go/token"
 	"go/types"
+	"sort"
 	"strings"
 
 	"golang.org/x/tools/go/ssa"
@@ -30,7 +31,127 @@ func fnKey(fn *ssa.Function) (string, string) {
 	return pkg.Pkg.Path(), fn.RelString(pkg.Pkg)
 }
 
+// calleeDisplayName: the name under which assert/callkeeps directives address a call.
+func calleeDisplayName(cc *ssa.CallCommon) string {
+	if cc.IsInvoke() {
+		return cc.Method.Name()
+	}
+	switch f := cc.Value.(type) {
+	case *ssa.Function:
+		return f.Name()
+	case *ssa.MakeClosure:
+		return f.Fn.Name()
+	case *ssa.Builtin:
+		return f.Name()
+	case *ssa.Parameter:
+		return f.Name()
+	case *ssa.FreeVar:
+		return f.Name()
+	case *ssa.UnOp:
+		// load of a captured function variable: *writeRows
+		if fv, ok := f.X.(*ssa.FreeVar); ok {
+			return fv.Name()
+		}
+		if g, ok := f.X.(*ssa.Global); ok {
+			return g.Name()
+		}
+	}
+	return cc.Value.Name()
+}
+
+// instrEnv: spec environment right before an instruction (source names via DebugRefs).
+func (x *fx) instrEnv(in ssa.Instruction) *specEnv {
+	b := in.Block()
+	local := map[string]ssa.Value{}
+	for _, j := range b.Instrs {
+		if j == in {
+			break
+		}
+		switch d := j.(type) {
+		case *ssa.Phi:
+			if d.Comment != "" {
+				local[d.Comment] = d
+			}
+		case *ssa.DebugRef:
+			if !d.IsAddr && d.Object() != nil {
+				if _, ok := d.Object().(*types.Var); ok {
+					local[d.Object().Name()] = d.X
+				}
+			}
+		}
+	}
+	env := &specEnv{mem: x.curMem, pkg: x.fn.Pkg.Pkg, top: x.curTop()}
+	pe := x.paramEnv(x.curMem)
+	env.look = func(name string) *Val {
+		if sv, ok := local[name]; ok {
+			if v, ok := x.lookupVal(sv); ok {
+				return v
+			}
+		}
+		if sv, ok := x.nameIn[b.Index][name]; ok {
+			if v, ok := x.lookupVal(sv); ok {
+				return v
+			}
+		}
+		for _, bb := range x.fn.Blocks {
+			for _, j := range bb.Instrs {
+				if v, ok := j.(ssa.Value); ok && v.Name() == name {
+					if r, ok := x.vals[v]; ok {
+						return r
+					}
+				}
+			}
+		}
+		return pe.look(name)
+	}
+	env.old = x.paramEnv(x.entryMem)
+	return env
+}
+
 func (x *fx) call(i *ssa.Call, cc *ssa.CallCommon) {
+	dname := calleeDisplayName(cc)
+	if i != nil && len(x.c.Asserts) > 0 {
+		ord := x.callOrdinal(i, dname)
+		for k, cl := range x.c.Asserts {
+			if cl.Kind == "assert:"+dname && cl.Loop == ord {
+				g := x.evalBool(cl.E, x.instrEnv(i))
+				if o := x.oblige("assert", fmt.Sprintf("%s#%d:%s", dname, ord, clauseLabel(cl, k)), g, "assertion before call "+dname+"#"+fmt.Sprint(ord)+": "+cl.Src); o != nil {
+					o.Src, o.Line = cl.Src, cl.Line
+				}
+			}
+		}
+	}
+	if keeps, ok := x.c.CallKeeps[dname]; ok && i != nil {
+		// unmodelled callee that is assumed to leave the listed regions unchanged
+		pre := x.curMem
+		env := x.instrEnv(i)
+		var regs []region
+		for _, e := range keeps {
+			func() {
+				// a keep expression that does not bind at this call site (the
+				// object does not exist yet) is skipped for this call
+				defer func() {
+					if r := recover(); r != nil {
+						if _, ok := r.(specErr); !ok {
+							panic(r)
+						}
+					}
+				}()
+				regs = append(regs, x.regionsOf(e, env)...)
+			}()
+		}
+		defer func() {
+			for _, r := range regs {
+				oldV, newV := x.resolve(pre, r.mem), x.resolve(x.curMem, r.mem)
+				if oldV == newV {
+					continue
+				}
+				x.assume(fmt.Sprintf("(forall ((i %s)) (! (=> %s (= (select (select %s %s) i) (select (select %s %s) i))) :pattern ((select (select %s %s) i))))",
+					x.idxSort(), x.and(x.ile(r.lo, "i"), x.ilt("i", r.hi)), newV, r.ref, oldV, r.ref, newV, r.ref))
+			}
+			x.assumptions["callee "+dname+" leaves "+strings.Join(x.c.CallKeepSrc[dname], ", ")+" unchanged (callkeeps)"] = true
+		}()
+	}
 	set := func(v *Val) {
 		if i != nil && v != nil {
 			if v.Tup == nil && len(v.Path) == 0 {
@@ -78,13 +199,7 @@ func (x *fx) call(i *ssa.Call, cc *ssa.CallCommon) {
 	}
 	// dynamic call through a function value
 	fv := x.valOf(cc.Value)
-	name := cc.Value.Name()
-	if p, ok := cc.Value.(*ssa.Parameter); ok {
-		name = p.Name()
-	}
-	if fvv, ok := cc.Value.(*ssa.FreeVar); ok {
-		name = fvv.Name()
-	}
+	name := dname
 	if _, ok := x.c.FnSpecs[name]; ok || x.c.Pure[name] {
 		var args []*Val
 		for _, a := range cc.Args {
@@ -618,10 +733,20 @@ func (x *fx) externalModel(full string, f *ssa.Function, args []*Val, rt types.T
 			var t string
 			switch {
 			case strings.Contains(full, "Trailing"):
-				t = smtBV(bigI(int64(w)), 64)
-				for k := w - 1; k >= 0; k-- {
-					t = fmt.Sprintf("(ite (= ((_ extract %d %d) %s) #b1) %s %s)", k, k, args[0].S, smtBV(bigI(int64(k)), 64), t)
+				// characterised rather than computed: t is the unique count with
+				// w == 0 => t == W;  w != 0 => t < W, bit t set, the t low bits clear
+				tv := x.fresh("tz", "(_ BitVec 64)")
+				wv := args[0].S
+				tw := tv
+				if w < 64 {
+					tw = fmt.Sprintf("((_ extract %d 0) %s)", w-1, tv)
 				}
+				one, zero := smtBV(bigI(1), w), smtBV(bigI(0), w)
+				x.assume(fmt.Sprintf("(ite (= %s %s) (= %s %s) (and (bvult %s %s) (= (bvand (bvlshr %s %s) %s) %s) (= (bvand %s (bvsub (bvshl %s %s) %s)) %s)))",
+					wv, zero, tv, smtBV(bigI(int64(w)), 64),
+					tv, smtBV(bigI(int64(w)), 64), wv, tw, one, one,
+					wv, one, tw, one, zero))
+				t = tv
 			case strings.Contains(full, "Leading"):
 				t = smtBV(bigI(int64(w)), 64)
 				for k := 0; k < w; k++ {
@@ -651,4 +776,28 @@ func (x *fx) externalModel(full string, f *ssa.Function, args []*Val, rt types.T
 		}
 	}
 	return false
+}
+
+// callOrdinal: 1-based ordinal of call i among the calls of the same display
+// name in the function, in source order.
+func (x *fx) callOrdinal(i *ssa.Call, name string) int {
+	if x.callOrd == nil {
+		x.callOrd = map[*ssa.Call]int{}
+		byName := map[string][]*ssa.Call{}
+		for _, b := range x.fn.Blocks {
+			for _, in := range b.Instrs {
+				if c, ok := in.(*ssa.Call); ok {
+					n := calleeDisplayName(c.Common())
+					byName[n] = append(byName[n], c)
+				}
+			}
+		}
+		for _, cs := range byName {
+			sort.SliceStable(cs, func(a, b int) bool { return cs[a].Pos() < cs[b].Pos() })
+			for k, c := range cs {
+				x.callOrd[c] = k + 1
+			}
+		}
+	}
+	return x.callOrd[i]
 }
